@@ -1165,7 +1165,17 @@ class LayoutSwapper(LayoutManager):
             # If the distribution is the same then the communicators should
             # also be the same
             if (nDim1 == nDim2):
-                return all([c in handler1.communicators for c in handler2.communicators])
+                comms1 = handler1.communicators
+                comms2 = handler2.communicators
+                if (not all([c in comms1 for c in comms2])):
+                    return False
+
+                # The data is only left where it is if each communicator
+                # distributes the same dimension in both layouts
+                dims1 = handler1.getLayout(layout1).dims_order
+                dims2 = handler2.getLayout(layout2).dims_order
+                return all([dims1[comms1.index(c)] == dims2[j]
+                            for j, c in enumerate(comms2) if c.Get_size() > 1])
 
             # Ensure that 2 is the larger handler to facilitate steps
             if (nDim1 > nDim2):
